@@ -13,7 +13,7 @@ def proof_stage(rep, prop, pre_broken=None):
         rep.cov["obligations"], rep.cov["discharged"] = total, 0
         return False, pre_broken[0]
     ok, out = core.coq_make(["Props/%s.vo" % prop])
-    total, done, detail = core.count_obligations(deps)
+    total, done, detail = core.count_obligations(deps, all_ok=ok)
     rep.cov["obligations"] = total
     rep.cov["discharged"] = done
     rep.cov["proof_files"] = detail
